@@ -28,6 +28,7 @@ class CComp(fm.TimeComponent):
         self._time = start
         self.spec = spec
         self.calls = []
+        self.published = {}
 
     def _next_time(self):
         return self.time + hlib.DAY
@@ -59,8 +60,17 @@ class CComp(fm.TimeComponent):
                 if src is not None:
                     push_infos[n] = src.copy_with()
             if not c.data_pushed[n] and all(c.in_data.get(d) is not None for d in s.get("deps", [])):
-                push_data[n] = np.array([float(1000 * (self.idx + 1))], dtype=object)  # raw: in the output's units
+                v = float(1000 * (self.idx + 1))
+                if s.get("refine"):
+                    # the value is refined from call to call while it cannot be published yet: handing data over
+                    # again replaces what was handed over before
+                    self.ncalls = getattr(self, "ncalls", 0) + 1
+                    v += self.ncalls
+                push_data[n] = np.array([v], dtype=object)  # raw: in the output's units
         self.try_connect(start_time, push_infos=push_infos, push_data=push_data)
+        for n, d in push_data.items():
+            if self.connector.data_pushed[n]:
+                self.published[n] = float(d[0])  # published in this call: the value handed over in this call
 
     def _validate(self):
         pass
@@ -268,7 +278,7 @@ def h_connect(ctx):
                     got = float(hlib.tagval(h.in_data[i]))
                     u_src, u_dst = exp_units.get(("O", srcn, srco)), exp_units.get(("I", n, i))
                     factor = float(fm.UNITS.Quantity(1.0, u_src).to(u_dst).magnitude) if u_src and u_dst else 1.0
-                    want = float(1000 * (comps[srcn].idx + 1)) * factor
+                    want = comps[srcn].published.get(srco, float(1000 * (comps[srcn].idx + 1))) * factor
                     ctx.check(abs(got - want) <= 1e-9 * max(1.0, abs(want)), "initial-pull-wrong-value",
                               {"sig": f"{n}.{i}", "got": got, "want": want})
                     if u_dst:
@@ -349,6 +359,11 @@ SCENARIOS = [
               "outputs": {"o": {"info": "declared", "deps": []}}},
         "Y": {"inputs": {"i": D()}}},
      "links": [("X", "o", "T", "i"), ("T", "o", "Y", "i")]},
+    {"name": "transfer_refined_data", "comps": {
+        "A": {"outputs": {"o": {"info": "declared", "deps": []}}},
+        "T": {"inputs": {"i": D()}, "outputs": {"o": {"info": "rule_in:i", "deps": [], "refine": True}}},
+        "C": {"inputs": {"i": D()}}},
+     "links": [("A", "o", "T", "i"), ("T", "o", "C", "i")]},
     {"name": "branch_behind_adapter", "comps": {
         "C1": {"inputs": {"i": D()}},
         "P": {"outputs": {"o": {"info": "declared", "deps": []}}},
@@ -399,7 +414,7 @@ EXPLANATION = (
     "compared with the exchanged infos and the delivered data. The dependency shapes are a "
     "finite catalogue -- the solver's part is path feasibility, the orders, and the start-time arithmetic."
 )
-ASSUMPTIONS = ["catalogue of 16 dependency scenarios (incl. transfer rules followed by a value rule, in both directions) (incl. links branching behind a shared pass-through adapter and an adapter nobody reads from) (vf/props/c06.py SCENARIOS), up to 4 components"]
+ASSUMPTIONS = ["catalogue of 17 dependency scenarios (incl. transfer rules followed by a value rule, in both directions) (incl. links branching behind a shared pass-through adapter and an adapter nobody reads from) (vf/props/c06.py SCENARIOS), up to 4 components"]
 
 
 def families(tier):
